@@ -158,7 +158,7 @@ CLAIMED = {
     ),
     "C20": (
         "Coq proof over the FINITE state space of a binding wait (one-step invariants decided by kernel computation over all 336 states x 5 events, lifted by induction to every history of instants) + correspondence with the real state classes on a virtual-time loop + two-ended handshake oracle",
-        "16 theorems in coq/props/C20.v (C20_early_match_not_lost: the awaited packet, repeats of it and unrelated packets arriving BEFORE the role coroutine reaches its await -- its own send still pending -- end the wait at once with that packet) about coq/model/M_Bind.v and M_BindAttempts.v (several attempts on one context: an attempt can be "
+        "17 theorems in coq/props/C20.v (C20_waits_as_stated: the waits the context methods default to and the state methods fall back to, re-read from the source by the translator on every run, are the stated 5 s for offer / accept and 3 s for confirm / addenda; C20_early_match_not_lost: the awaited packet, repeats of it and unrelated packets arriving BEFORE the role coroutine reaches its await -- its own send still pending -- end the wait at once with that packet) about coq/model/M_Bind.v and M_BindAttempts.v (several attempts on one context: an attempt can be "
         "abandoned -- the caller gives up, a send raises: BindContextBase._abandon_binding -- and retried; for EVERY history no abandoned state "
         "object keeps an armed timer, an abandon ends binding, and a new attempt on a non-binding context evolves exactly as a first attempt "
         "whatever happened before, so the single-wait theorems apply to every retry; the wrong order of the two statements of "
@@ -183,7 +183,7 @@ CLAIMED = {
     ),
     "C18": (
         "Coq proof (lock discipline for every fault position and every history of transfers by case analysis / induction; version bookkeeping of the reassembly by induction) + correspondence and fault-injection oracle on real Schedule/Zone objects with a scripted controller",
-        "10 theorems in coq/props/C18.v about coq/model/M_Transfer.v (OVERHEARD traffic, Schedule._handle_msg: acknowledgements of schedule writes -- this gateway's or "
+        "13 theorems in coq/props/C18.v about coq/model/M_Transfer.v and M_SchedCache.v (THE ZONE'S OWN MEMORY of its schedule -- _full_schedule / _sched_ver / _global_ver and the system's cached change counter against the controller's schedule and counter, under fetches and WRITES that fail at any exchange (before the controller has the whole set; after it has committed, the last reply lost; at the version query that follows), changes by others and overheard counters: in every reachable state the readings never run ahead of the controller and whenever the zone's version says 'current' what it remembers IS the controller's schedule (C18_cache_invariant), so a forced fetch that returns, returns the controller's schedule (C18_forced_fetch_is_current); remembering the new schedule BEFORE sending it is refuted with the three-step history (C18_early_assignment_refuted); this part is tied to the code by the fault-injection oracle on real Schedule objects (failed writes followed by forced / unforced fetches with nothing changing on the controller), not by a state-by-state correspondence; OVERHEARD traffic, Schedule._handle_msg: acknowledgements of schedule writes -- this gateway's or "
         "another's -- and fragments arriving while the zone's own transfer holds the lock change nothing; hearing ANY traffic is feeding the reassembly exactly the "
         "fragments among it, so nothing but a fragment ever enters the set (fix 920e60e; tied to the real _handle_msg on real RP / I 0404 messages under the three lock "
         "states, and anchored in the source by AST); = _obtain_lock/_release_lock around Schedule._get_schedule / "
@@ -280,7 +280,7 @@ CLAIMED = {
     ),
     "C11": (
         "Coq proof (exact integer models of the duty-cycle bucket, the write-gap semaphore and the MQTT token bucket with regenerated constants: window bounds for EVERY run by induction / telescoping, lia) + tick-exact correspondence with the real limiter code under a virtual perf_counter + window/order/integrity oracle",
-        "11 theorems in coq/props/C11.v about coq/model/M_Regulate.v and M_RegulateK.v (= @limit_duty_cycle's refill/sleep/debit, PortTransport._leak_sem + "
+        "17 theorems in coq/props/C11.v about coq/model/M_Regulate.v, M_RegulateK.v and M_SyncAvoid.v (SYNC-CYCLE AVOIDANCE, transport.avoid_system_syncs with its window constants and the two-sided shape of is_imminent re-read from the source: an announced sync holds a write only inside its window -- never once its time has come, whatever became of the controller that announced it; never earlier than the window -- and the wait loop ends at the window's end plus one sleep: C11_sync_never_held_once_due / _never_held_early / _held_inside_the_window / _hold_bounded / _window_as_stated; the one-sided test is refuted; tied by sync_run: the real track_system_syncs + avoid_system_syncs + write_frame on a virtual clock, every write no earlier than the model's release and within the rest of the cycle after it; = @limit_duty_cycle's refill/sleep/debit, PortTransport._leak_sem + "
         "BoundedSemaphore(1), MqttTransport.write_frame; RATE, CAPACITY, the frame-size formula, the gap and the token constants "
         "regenerated, the wrapper's shape checked by the translator): for every run of the wrapper under sequential use (any arrival "
         "times, frame sizes, extra delays) any stretch of consecutive writes hands the radio at most RATE x (first..last write) + one "
